@@ -83,6 +83,12 @@ class C09(F.Spec):
         ops = ["boot %d" % rng.choice([12345, 4294967295 - 3000000, rng.getrandbits(32) | 1]), "board rs1 0", sensor, "init", "calllog 1", "rstimes 0 %d %d %d %d" % (opening, closing, tms, tt), "rspos 0 %d %d" % (p0, t0),
                "rsmanual 0", "adv 1500", "rstick 0 10000", "rstick 0 0",
                "msg 110 " + set_value(7, 0, dur, [2 if up else 1]).hex()]
+        costly = rng.random() < .3
+        if costly:
+            # code takes time to run: the counter moves on between two readings inside one callback; callbacks at the real
+            # 10 ms period, so that a loss per callback adds up
+            ops.insert(len(ops) - 1, "readcost %d" % rng.choice([100, 200, 300]))
+            run = min(run, 15 * 1000000)
         left = run
         small = rng.random() < 0.12          # runs made only of short, equal intervals (sub-unit carries on every callback)
         sdt = rng.choice([1000, 2000, 3000, 7000])
@@ -94,6 +100,8 @@ class C09(F.Spec):
                 dt = min(left, sdt)
             if run > 30 * 1000000:
                 dt = min(left, rng.choice([250000, 200000, 100000]))      # long runs: keep the case short
+            if costly:
+                dt = min(left, 10000)
             ops.append("rstick 0 %d" % dt)
             left -= dt
         ops += ["msg 110 " + set_value(8, 0, dur, [0]).hex(), "rstick 0 10000", "rstick 0 10000"]
